@@ -9,9 +9,11 @@ EXTENDS Integers, Sequences, FiniteSets
 
 \* the pool used by the bounded model and by the harness (page numbers):
 \*   0: [0,2)   1: [2,4) adjacent to 0   2: [1,3) overlaps 0 and 1   3: [8,10) far   4: [0,2) duplicate range, other file
-PoolLo == <<0, 2, 1, 8, 0>>
-PoolHi == <<2, 4, 3, 10, 2>>
-Pool == 0..4
+\*   5: [4,6) adjacent to 1 -- 0, 1, 5 are three regions in a row (in half of the concrete pools they are also adjacent in the
+\*      frontend's address space, which is when an implementation may be tempted to merge their translation entries)
+PoolLo == <<0, 2, 1, 8, 0, 4>>
+PoolHi == <<2, 4, 3, 10, 2, 6>>
+Pool == 0..5
 Lo(r) == PoolLo[r + 1]
 Hi(r) == PoolHi[r + 1]
 Overlap(a, b) == Lo(a) < Hi(b) /\ Lo(b) < Hi(a)
